@@ -1,6 +1,7 @@
-(* Proofs about Model/Liquidity.v, part 2: the per-order invariant holds for every stored order in
-   every state reachable by any finite history of operations (any ENV inputs). *)
-From Comdex Require Import Lib.Base Lib.DecArith Lib.DecFacts Model.Liquidity Proofs.LiquidityProofs.
+(* Proofs about Model/Liquidity.v, part 2: the per-order accounting invariant [EInv] holds for every
+   stored order in every state reachable by any finite history of operations (any ENV inputs).
+   Instance of the generic sweep (LiquiditySweep.v). *)
+From Comdex Require Import Lib.Base Lib.DecArith Lib.DecFacts Model.Liquidity Proofs.LiquidityProofs Proofs.LiquiditySweep.
 From Coq Require Import ZifyBool Lia.
 
 Definition rate_of (ap : list (Z * params)) (a : Z) : Z :=
@@ -8,36 +9,8 @@ Definition rate_of (ap : list (Z * params)) (a : Z) : Z :=
 Definition SInvL (ap : list (Z * params)) (st : list entry) : Prop :=
   Forall (fun e => EInv (rate_of ap (o_app (fst e))) e) st.
 Definition SInv (s : state) : Prop := SInvL (apps s) (orders s).
-
-(* the relation every successful transition satisfies *)
-Definition R (s s' : state) : Prop := apps s' = apps s /\ (SInv s -> SInv s').
-Definition keepo (s s' : state) : Prop := apps s' = apps s /\ orders s' = orders s.
-
-Lemma R_refl s : R s s. Proof. split; auto. Qed.
-Lemma R_trans s1 s2 s3 : R s1 s2 -> R s2 s3 -> R s1 s3.
-Proof. intros [A1 B1] [A2 B2]. split; [congruence|auto]. Qed.
-Lemma keepo_R s s' : keepo s s' -> R s s'.
-Proof. intros [A B]. split; [assumption|]. unfold SInv. rewrite A, B. auto. Qed.
-Lemma keepo_refl s : keepo s s. Proof. split; auto. Qed.
-Lemma keepo_trans s1 s2 s3 : keepo s1 s2 -> keepo s2 s3 -> keepo s1 s3.
-Proof. intros [A1 B1] [A2 B2]. split; congruence. Qed.
-
-(* generic inversion of [f ... = Ok s'] into its success path *)
-Ltac inv_ok H :=
-  repeat first
-    [ discriminate H
-    | progress (match type of H with
-                | context [match ?x with _ => _ end] => let E := fresh "E" in destruct x eqn:E
-                end) ];
-  try (injection H as H).
-
-(* ---------------- store primitives ---------------- *)
-Lemma find_order_in k st e : find_order k st = Some e -> In e st /\ k3_eqb (ekey e) k = true.
-Proof.
-  induction st as [|x r IH]; cbn [find_order]; [discriminate|]. destruct (k3_eqb (ekey x) k) eqn:E.
-  - intros H. injection H as H. subst x. split; [left; reflexivity|assumption].
-  - intros H. destruct (IH H). split; [right; assumption|assumption].
-Qed.
+(* the sweep instance: the registered apps are fixed at [ap] *)
+Definition SI (ap : list (Z * params)) (s : state) : Prop := apps s = ap /\ SInvL ap (orders s).
 
 Lemma Forall_upd (P : entry -> Prop) k e' st :
   Forall P st -> P e' -> Forall P (upd_order k (fun _ => e') st).
@@ -46,7 +19,6 @@ Proof.
   destruct Hx as (y & <- & Hy). destruct (k3_eqb (ekey y) k); [assumption|].
   eapply Forall_forall in H; eauto.
 Qed.
-
 Lemma Forall_ins (P : entry -> Prop) e st : Forall P st -> P e -> Forall P (ins_order e st).
 Proof.
   intros H He. induction st as [|x r IH]; cbn [ins_order]; [constructor; auto|].
@@ -54,143 +26,71 @@ Proof.
   destruct (k3_ltb (ekey e) (ekey x)); constructor; auto.
 Qed.
 
-Lemma k3_eqb_app e k a p i : k3_eqb (ekey e) k = true -> k = (a, p, i) -> o_app (fst e) = a.
-Proof. unfold ekey, okey, k3_eqb. intros H ->. lia. Qed.
-
-(* ---------------- ssend and the pure setters ---------------- *)
-Lemma ssend_keepo s a b d x s' : ssend s a b d x = Ok s' -> keepo s s'.
-Proof. unfold ssend. intros H. destruct (send (led s) a b d x); try discriminate. injection H as <-. split; reflexivity. Qed.
-
-Lemma fold_m_R {A} (f : state -> A -> outcome state) l :
-  (forall s x s', f s x = Ok s' -> R s s') -> forall s s', fold_m f l s = Ok s' -> R s s'.
-Proof.
-  intros Hf. induction l as [|x r IH]; cbn; intros s s' H.
-  - injection H as <-. apply R_refl.
-  - destruct (f s x) eqn:E; cbn in H; try discriminate. eapply R_trans; [eapply Hf; eauto|eauto].
-Qed.
-Lemma fold_m_keepo {A} (f : state -> A -> outcome state) l :
-  (forall s x s', f s x = Ok s' -> keepo s s') -> forall s s', fold_m f l s = Ok s' -> keepo s s'.
-Proof.
-  intros Hf. induction l as [|x r IH]; cbn; intros s s' H.
-  - injection H as <-. apply keepo_refl.
-  - destruct (f s x) eqn:E; cbn in H; try discriminate. eapply keepo_trans; [eapply Hf; eauto|eauto].
-Qed.
-
-(* ---------------- FinishOrder on a stored order ---------------- *)
-Lemma finish_entry_R s e st s' :
-  In e (orders s) -> is_term st = true -> finish_entry s e st = Ok s' -> R s s'.
-Proof.
-  intros Hin Ht H. unfold finish_entry in H.
-  destruct (is_term (o_status (fst e))) eqn:El; [injection H as <-; apply R_refl|].
-  destruct (if o_type (fst e) =? 3 then Some 0 else option_map pr_fee_rate (get_params s (o_app (fst e)))) as [rate|] eqn:Er;
-    [|discriminate].
-  destruct (finish_calc rate e st) as [[e' refund] fee] eqn:Ec.
-  unfold obind in H.
-  destruct (ssend s _ _ _ refund) as [s1| |] eqn:E1; try discriminate.
-  destruct (ssend s1 _ _ _ fee) as [s2| |] eqn:E2; try discriminate.
-  injection H as <-.
-  destruct (ssend_keepo _ _ _ _ _ _ E1) as [A1 B1]. destruct (ssend_keepo _ _ _ _ _ _ E2) as [A2 B2].
-  split; [cbn; congruence|]. unfold SInv. cbn [apps orders set_owed set_orders]. rewrite A2, A1, B2, B1.
-  intros HS. apply Forall_upd; [assumption|].
-  pose proof (proj1 (Forall_forall _ _) HS e Hin) as He. cbn beta in He.
-  (* the rate the code uses is the rate of the invariant, or the order is market-making (rate irrelevant) *)
-  assert (Hrate : EInv rate e).
-  { destruct (o_type (fst e) =? 3) eqn:Ety.
-    - injection Er as <-. revert He. unfold EInv, fee_reserve. rewrite Ety. auto.
-    - unfold get_params in Er. unfold rate_of in He. destruct (aget (apps s) (o_app (fst e))); cbn in Er; [|discriminate].
-      injection Er as <-. exact He. }
-  pose proof (finish_calc_law rate e st Hrate El Ht) as L. rewrite Ec in L. cbn [fst snd] in L.
-  destruct L as (L1 & _ & _ & Lk).
-  assert (o_app (fst e') = o_app (fst e)) as Happ. { unfold ekey, okey in Lk. congruence. }
-  rewrite Happ.
-  destruct (o_type (fst e) =? 3) eqn:Ety.
-  - assert (o_type (fst e') = o_type (fst e)) as Hty.
-    { revert Ec. unfold finish_calc. destruct e as [o g]. cbn [fst] in *. rewrite El, Ety.
-      destruct (o_rem o >? 0); intros [= <- _ _]; reflexivity. }
-    revert L1. unfold EInv, fee_reserve. rewrite Hty, Ety. auto.
-  - unfold get_params in Er. unfold rate_of. destruct (aget (apps s) (o_app (fst e))); cbn in Er; [|discriminate].
-    injection Er as <-. exact L1.
-Qed.
-
-Lemma finish_at_R s k st s' : is_term st = true -> finish_at s k st = Ok s' -> R s s'.
-Proof.
-  unfold finish_at. intros Ht H. destruct (find_order k (orders s)) eqn:E; [|injection H as <-; apply R_refl].
-  eapply finish_entry_R; eauto. apply (find_order_in _ _ _ E).
-Qed.
-
-(* ---------------- placement ---------------- *)
 Lemma fee_reserve_non_mm rate o : o_type o <> 3 -> fee_reserve rate o = fee_amt rate (o_offer o).
 Proof. unfold fee_reserve. intros. destruct (o_type o =? 3) eqn:E; [lia|reflexivity]. Qed.
 
-Lemma place_R s m typ pr price offer fee now s' P :
-  get_params s (m_app m) = Some P -> fee = fee_amt (pr_fee_rate P) offer -> typ <> 3 ->
-  place s m typ pr price offer fee now = Ok s' -> R s s'.
+(* the rate FinishOrder reads is the rate of the invariant, or the order is market-making *)
+Lemma finish_rate s (e : entry) rate :
+  (if o_type (fst e) =? 3 then Some 0 else option_map pr_fee_rate (get_params s (o_app (fst e)))) = Some rate ->
+  forall x, EInv (rate_of (apps s) (o_app (fst e))) x -> o_type (fst x) = o_type (fst e) -> EInv rate x.
 Proof.
-  intros HP Hfee Hty H. unfold place, obind in H.
-  destruct (offer <? 0) eqn:Hoff; [discriminate|].
-  destruct (ssend s _ _ _ _) as [s1| |] eqn:E1; try discriminate. injection H as <-.
-  destruct (ssend_keepo _ _ _ _ _ _ E1) as [A1 B1].
-  split; [cbn; congruence|]. unfold SInv. cbn [apps orders set_owed set_orders set_pairs]. rewrite A1, B1.
-  intros HS. apply Forall_ins; [assumption|]. cbn [fst o_app].
+  intros Er x Hx Hty. destruct (o_type (fst e) =? 3) eqn:Ety.
+  - injection Er as <-. revert Hx. unfold EInv, fee_reserve. rewrite Hty, Ety. auto.
+  - unfold get_params in Er. unfold rate_of in Hx. destruct (aget (apps s) (o_app (fst e))); cbn in Er; [|discriminate].
+    injection Er as <-. exact Hx.
+Qed.
+Lemma finish_rate_back s (e : entry) rate :
+  (if o_type (fst e) =? 3 then Some 0 else option_map pr_fee_rate (get_params s (o_app (fst e)))) = Some rate ->
+  forall x, EInv rate x -> o_type (fst x) = o_type (fst e) -> EInv (rate_of (apps s) (o_app (fst e))) x.
+Proof.
+  intros Er x Hx Hty. destruct (o_type (fst e) =? 3) eqn:Ety.
+  - injection Er as <-. revert Hx. unfold EInv, fee_reserve. rewrite Hty, Ety. auto.
+  - unfold get_params in Er. unfold rate_of. destruct (aget (apps s) (o_app (fst e))); cbn in Er; [|discriminate].
+    injection Er as <-. exact Hx.
+Qed.
+Lemma finish_calc_type rate e st : o_type (fst (fst (fst (finish_calc rate e st)))) = o_type (fst e).
+Proof.
+  destruct e as [o g]. unfold finish_calc. cbn [fst].
+  destruct (is_term (o_status o)); [reflexivity|]. destruct (o_type o =? 3); [reflexivity|].
+  destruct (o_rem o >? 0); [destruct (o_rem o =? o_offer o)|]; reflexivity.
+Qed.
+
+Section Leaves.
+Variable ap : list (Z * params).
+
+Lemma si_finish s e st s' :
+  SI ap s -> find_order (ekey e) (orders s) = Some e -> is_term st = true -> finish_entry s e st = Ok s' -> SI ap s'.
+Proof.
+  intros [HA HS] Hf Ht H. destruct (find_order_in _ _ _ Hf) as [Hin _]. unfold finish_entry in H.
+  destruct (is_term (o_status (fst e))) eqn:El; [injection H as <-; split; assumption|].
+  destruct (if o_type (fst e) =? 3 then Some 0 else option_map pr_fee_rate (get_params s (o_app (fst e)))) as [rate|] eqn:Er;
+    [|discriminate].
+  destruct (finish_calc rate e st) as [[e' refund] fee] eqn:Ec.
+  unfold obind in H. inv_ok H; subst s'; sends. split; [exact HA|]. proj_cbn.
+  apply Forall_upd; [exact HS|].
+  pose proof (proj1 (Forall_forall _ _) HS e Hin) as He. cbn beta in He. rewrite <- HA in He.
+  pose proof (finish_calc_law rate e st (finish_rate s e rate Er e He eq_refl) El Ht) as L. rewrite Ec in L. cbn [fst snd] in L.
+  destruct L as (L1 & _ & _ & Lk).
+  assert (o_app (fst e') = o_app (fst e)) as Happ. { unfold ekey, okey in Lk. congruence. }
+  rewrite Happ, <- HA. apply (finish_rate_back s e rate Er); [exact L1|].
+  pose proof (finish_calc_type rate e st) as T. rewrite Ec in T. exact T.
+Qed.
+
+Lemma si_place s m typ pr price offer fee now s' P :
+  SI ap s -> get_params s (m_app m) = Some P -> find_pair (m_app m) (m_pair m) (pairs s) = Some pr ->
+  fee = fee_amt (pr_fee_rate P) offer -> typ = 1 \/ typ = 2 ->
+  place s m typ pr price offer fee now = Ok s' -> SI ap s'.
+Proof.
+  intros [HA HS] HP _ Hfee Hty H. unfold place, obind in H.
+  destruct (offer <? 0) eqn:Hoff; [discriminate|]. inv_ok H; subst s'; sends.
+  split; [exact HA|]. proj_cbn. apply Forall_ins; [exact HS|]. cbn [fst o_app].
+  subst fee. rewrite <- HA.
   assert (rate_of (apps s) (m_app m) = pr_fee_rate P) as ->. { unfold rate_of. unfold get_params in HP. rewrite HP. reflexivity. }
-  subst fee.
-  match goal with |- EInv ?r (?o, _) => replace (fee_amt r offer) with (fee_reserve r o) by (rewrite fee_reserve_non_mm; [reflexivity|cbn; assumption]) end.
+  match goal with |- EInv ?r (?o, _) => replace (fee_amt r offer) with (fee_reserve r o) by (rewrite fee_reserve_non_mm; [reflexivity|cbn; lia]) end.
   apply new_order_law. lia.
 Qed.
 
-Lemma limit_order_R s m now s' : limit_order s m now = Ok s' -> R s s'.
-Proof.
-  intros H. unfold limit_order in H.
-  destruct (negb (vb_limit m)) eqn:Evb; [discriminate|].
-  destruct (get_params s (m_app m)) as [P|] eqn:EP; [|discriminate].
-  inv_ok H; (eapply (place_R s m 1 _ _ _ _ now s' P EP eq_refl); [discriminate|eassumption]).
-Qed.
-
-Lemma market_order_R s m now s' : market_order s m now = Ok s' -> R s s'.
-Proof.
-  intros H. unfold market_order in H.
-  destruct (negb (vb_market m)) eqn:Evb; [discriminate|].
-  destruct (get_params s (m_app m)) as [P|] eqn:EP; [|discriminate].
-  inv_ok H; (eapply (place_R s m 2 _ _ _ _ now s' P EP eq_refl); [discriminate|eassumption]).
-Qed.
-
-(* ---------------- cancellation ---------------- *)
-Lemma cancel_order_R s app owner pair id s' : cancel_order s app owner pair id = Ok s' -> R s s'.
-Proof.
-  intros H. unfold cancel_order in H.
-  destruct (find_order (app, pair, id) (orders s)) eqn:Ef; inv_ok H; try discriminate.
-  all: try (eapply (finish_entry_R _ _ 5 _); [apply (find_order_in _ _ _ Ef)|reflexivity|eassumption]).
-Qed.
-
-Lemma cancel_all_R s app owner pids s' : cancel_all s app owner pids = Ok s' -> R s s'.
-Proof.
-  intros H. unfold cancel_all in H.
-  repeat match type of H with (if ?c then _ else _) = _ => destruct c; [discriminate|] end.
-  revert H. apply fold_m_R. clear. intros s k s' H.
-  destruct (find_order k (orders s)) eqn:Ef; [|injection H as <-; apply R_refl].
-  inv_ok H; try (subst; apply R_refl); try (eapply (finish_entry_R _ _ 5 _); [apply (find_order_in _ _ _ Ef)|reflexivity|eassumption]).
-Qed.
-
-Lemma set_mmidx_R s v : R s (set_mmidx s v). Proof. apply keepo_R. split; reflexivity. Qed.
-
-Lemma cancel_mm_inner_R s app owner pr skip s' : cancel_mm_inner s app owner pr skip = Ok s' -> R s s'.
-Proof.
-  intros H. unfold cancel_mm_inner in H. destruct (find_mm app owner (p_id pr) (mmidx s)) as [ix|].
-  - unfold obind in H. destruct (fold_m _ (mi_ids ix) s) as [s1| |] eqn:Ef; try discriminate. injection H as <-.
-    eapply R_trans; [|apply set_mmidx_R]. revert Ef. apply fold_m_R. clear. intros s id s' H.
-    destruct (find_order (p_id pr, app, id) (orders s)) eqn:Ef; [|injection H as <-; apply R_refl].
-    inv_ok H; try (subst; apply R_refl); try (eapply (finish_entry_R _ _ 5 _); [apply (find_order_in _ _ _ Ef)|reflexivity|eassumption]).
-  - destruct skip; [injection H as <-; apply R_refl|discriminate].
-Qed.
-
-Lemma cancel_mm_R s app owner pair s' : cancel_mm s app owner pair = Ok s' -> R s s'.
-Proof.
-  unfold cancel_mm. intros H. destruct (pair =? 0); [discriminate|].
-  destruct (find_pair app pair (pairs s)); [|discriminate]. eapply cancel_mm_inner_R; eauto.
-Qed.
-
-(* ---------------- market-making orders ---------------- *)
-Lemma mm_place_inv ap app owner now life pr buy ticks : forall id st,
+Lemma mm_place_inv app owner now life pr buy ticks : forall id st,
   SInvL ap st -> existsb (fun t : Z * Z * Z => snd t <? 0) ticks = false ->
   SInvL ap (fst (fst (mm_place app owner now life pr buy ticks id st))).
 Proof.
@@ -206,280 +106,117 @@ Proof.
   apply new_order_law. lia.
 Qed.
 
-Lemma mm_order_R s m now s' : mm_order s m now = Ok s' -> R s s'.
+Lemma si_mm_tail s m pr bt st now s' :
+  SI ap s ->
+  existsb (fun t : Z * Z * Z => snd t <? 0) (bt ++ st) = false ->
+  mm_tail s m pr bt st now = Ok s' -> SI ap s'.
 Proof.
-  intros H. unfold mm_order in H.
-  destruct (negb (vb_mm m)); [discriminate|].
-  destruct (get_params s (mm_app m)) as [P|]; [|discriminate].
-  repeat match type of H with (if ?c then _ else _) = _ => destruct c; [discriminate|] end.
-  destruct (find_pair (mm_app m) (mm_pair m) (pairs s)) as [pr|]; [|discriminate].
-  destruct (match p_last_price pr with Some lp => _ | None => _ end) as [lo hi].
-  repeat match type of H with (if ?c then _ else _) = _ => destruct c; [discriminate|] end.
-  destruct (if mm_buy_amt m >? 0 then _ else Some []) as [bt|]; [|discriminate].
-  destruct (if mm_sell_amt m >? 0 then _ else Some []) as [stt|]; [|discriminate].
-  destruct (existsb _ (bt ++ stt)) eqn:Eneg; [discriminate|].
-  repeat match type of H with (if ?c then _ else _) = _ => destruct c; [discriminate|] end.
-  unfold obind in H.
-  destruct (cancel_mm_inner s _ _ pr true) as [s1| |] eqn:E1; try discriminate.
-  destruct (ssend s1 _ _ _ _) as [s2| |] eqn:E2; try discriminate.
+  intros [HA HS] Eneg H. unfold mm_tail, obind in H.
+  destruct (ssend s _ _ _ _) as [s2| |] eqn:E2; try discriminate.
   destruct (ssend s2 _ _ _ _) as [s3| |] eqn:E3; try discriminate.
   destruct (mm_place _ _ _ _ pr true bt _ (orders s3)) as [[st1 ids1] last1] eqn:M1.
-  destruct (mm_place _ _ _ _ pr false stt last1 st1) as [[st2 ids2] last2] eqn:M2.
-  injection H as <-.
-  pose proof (cancel_mm_inner_R _ _ _ _ _ _ E1) as R1.
-  pose proof (keepo_R _ _ (ssend_keepo _ _ _ _ _ _ E2)) as R2.
-  pose proof (keepo_R _ _ (ssend_keepo _ _ _ _ _ _ E3)) as R3.
-  eapply R_trans; [exact R1|]. eapply R_trans; [exact R2|]. eapply R_trans; [exact R3|].
-  split; [reflexivity|]. unfold SInv. cbn [apps orders set_mmidx set_owed set_pairs set_orders].
-  intros HS. rewrite existsb_app in Eneg. apply orb_false_iff in Eneg. destruct Eneg as [N1 N2].
-  pose proof (mm_place_inv (apps s3) (mm_app m) (mm_owner m) now (mm_life m) pr true bt (p_last_order pr) (orders s3) HS N1) as I1.
+  destruct (mm_place _ _ _ _ pr false st last1 st1) as [[st2 ids2] last2] eqn:M2.
+  injection H as <-. sends. proj_cbn. split; [exact HA|].
+  rewrite existsb_app in Eneg. apply orb_false_iff in Eneg. destruct Eneg as [N1 N2].
+  pose proof (mm_place_inv (mm_app m) (mm_owner m) now (mm_life m) pr true bt (p_last_order pr) (orders s) HS N1) as I1.
   rewrite M1 in I1. cbn [fst] in I1.
-  pose proof (mm_place_inv (apps s3) (mm_app m) (mm_owner m) now (mm_life m) pr false stt last1 st1 I1 N2) as I2.
+  pose proof (mm_place_inv (mm_app m) (mm_owner m) now (mm_life m) pr false st last1 st1 I1 N2) as I2.
   rewrite M2 in I2. exact I2.
 Qed.
 
-(* ---------------- batch execution ---------------- *)
-Lemma set_surplus_owed_keepo s v w : keepo s (set_surplus (set_owed s v) w). Proof. split; reflexivity. Qed.
-
-Lemma apply_fill_R s app pair f s' : apply_fill s app pair f = Ok s' -> R s s'.
+Lemma si_fill_book s k o g matched paid recv :
+  SI ap s -> find_order k (orders s) = Some (o, g) -> is_live (o_status o) = true ->
+  0 <= o_rem o - paid -> 0 <= paid -> 0 <= recv -> SI ap (fill_book s k o g matched paid recv).
 Proof.
-  destruct f as [[[id matched] paid] recv]. unfold apply_fill. intros H.
-  destruct (find_order (app, pair, id) (orders s)) as [[o g]|] eqn:Ef; [|discriminate].
-  destruct (negb (is_live (o_status o))) eqn:El; [discriminate|].
-  destruct ((o_rem o - paid <? 0) || (paid <? 0) || (recv <? 0)) eqn:Eg; [discriminate|].
-  assert (Hlt : is_term (o_status o) = false).
-  { unfold is_live, is_term in *. destruct (o_status o =? 1) eqn:?, (o_status o =? 2) eqn:?, (o_status o =? 3) eqn:?; cbn in El; try discriminate; lia. }
-  destruct (find_order_in _ _ _ Ef) as [Hin Hk].
-  assert (Happ : o_app o = app). { unfold ekey, okey, k3_eqb in Hk. cbn [fst] in Hk. lia. }
-  set (o1 := set_fill o matched paid recv (o_status o)) in *.
-  set (g1 := mkGhost (g_taken g) (g_ret_offer g) (g_ret_fee g) (g_recv g + recv) (g_fee_fwd g) ((matched, paid, recv) :: g_fills g)) in *.
-  set (s1 := set_orders s (upd_order (app, pair, id) (fun _ => (o1, g1)) (orders s))) in *.
-  set (s2 := set_surplus (set_owed s1 _) _) in *.
-  assert (R12 : R s s2).
-  { split; [reflexivity|]. unfold SInv. cbn [apps orders s2 s1 set_surplus set_owed set_orders]. intros HS.
-    apply Forall_upd; [assumption|]. pose proof (proj1 (Forall_forall _ _) HS _ Hin) as He. cbn [fst] in He |- *.
-    unfold o1 at 1. cbn [set_fill o_app]. apply fill_law; try assumption. lia. }
-  unfold obind in H.
-  destruct (if o_open o1 =? 0 then _ else _) as [s3| |] eqn:E3; try discriminate.
-  eapply R_trans; [exact R12|]. eapply R_trans; [|eapply keepo_R, ssend_keepo; exact H].
-  destruct (o_open o1 =? 0).
-  - eapply (finish_entry_R _ _ 4 _); [|reflexivity|exact E3].
-    cbn [orders s2 s1 set_surplus set_owed set_orders]. unfold upd_order. apply in_map_iff. exists (o, g). rewrite Hk. auto.
-  - injection E3 as <-. split; [reflexivity|]. unfold SInv. cbn [apps orders set_orders]. intros HS.
-    apply Forall_upd; [assumption|].
-    assert (Hin1 : In (o1, g1) (orders s2)).
-    { cbn [orders s2 s1 set_surplus set_owed set_orders]. unfold upd_order. apply in_map_iff. exists (o, g). rewrite Hk. auto. }
-    pose proof (proj1 (Forall_forall _ _) HS _ Hin1) as He. cbn [fst] in He |- *.
-    replace (o_app (set_status o1 3)) with (o_app o1) by reflexivity.
-    apply set_status_law; [exact He| |reflexivity]. unfold o1. cbn [set_fill o_status]. exact Hlt.
+  intros [HA HS] Hf Hl Hp _ _. destruct k as [[a p] i]. unfold fill_book. proj_cbn. split; [exact HA|].
+  destruct (find_order_in _ _ _ Hf) as [Hin _].
+  apply Forall_upd; [exact HS|]. pose proof (proj1 (Forall_forall _ _) HS _ Hin) as He. cbn [fst] in He |- *.
+  replace (o_app (set_fill o matched paid recv (o_status o))) with (o_app o) by reflexivity.
+  unfold fill_ghost. apply fill_law; try assumption; apply live_not_term, Hl.
 Qed.
 
-Lemma apply_pool_flow_keepo c app pr s f s' : apply_pool_flow c app pr s f = Ok s' -> keepo s s'.
+Lemma si_mark_status s k o g st :
+  SI ap s -> find_order k (orders s) = Some (o, g) -> is_term (o_status o) = false -> is_term st = false ->
+  SI ap (mark_status s k o g st).
 Proof.
-  destruct f as [[pid dq] db]. unfold apply_pool_flow, obind. intros H.
-  inv_ok H; subst.
-  all: repeat match goal with E : context [match _ with _ => _ end] |- _ => inv_ok E end; subst.
-  all: repeat match goal with E : ssend _ _ _ _ _ = Ok _ |- _ => apply ssend_keepo in E; destruct E as [? ?] end.
-  all: split; simpl in *; congruence.
+  intros [HA HS] Hf Hl Ht. proj_cbn. split; [exact HA|]. destruct (find_order_in _ _ _ Hf) as [Hin _].
+  apply Forall_upd; [exact HS|]. pose proof (proj1 (Forall_forall _ _) HS _ Hin) as He. cbn [fst] in He |- *.
+  replace (o_app (set_status o st)) with (o_app o) by reflexivity. apply set_status_law; assumption.
 Qed.
 
-Lemma execute_matching_R now s pr env s' : execute_matching now s pr env = Ok s' -> R s s'.
+Lemma si_begin_app s app : SI ap s -> SI ap (begin_app app s).
 Proof.
-  unfold execute_matching, obind. intros H.
-  destruct (fold_m _ (map ekey _) s) as [s1| |] eqn:E1; try discriminate.
-  match type of H with match ?x with _ => _ end = _ => destruct x as [s3| |] eqn:E3; try discriminate end.
-  injection H as <-.
-  assert (R1 : R s s1).
-  { revert E1. apply fold_m_R. clear. intros s k s' H.
-    destruct (find_order k (orders s)) as [[o g]|] eqn:Ef; [|injection H as <-; apply R_refl].
-    destruct (find_order_in _ _ _ Ef) as [Hin Hk].
-    destruct (is_live (o_status o)) eqn:El.
-    - destruct (negb (o_status o =? 1) && (o_expire o <=? now)).
-      + eapply (finish_entry_R _ _ 6 _); [exact Hin|reflexivity|exact H].
-      + destruct (o_status o =? 1) eqn:E1; [|injection H as <-; apply R_refl].
-        injection H as <-. split; [reflexivity|]. unfold SInv. cbn [apps orders set_orders]. intros HS.
-        apply Forall_upd; [assumption|]. pose proof (proj1 (Forall_forall _ _) HS _ Hin) as He. cbn [fst] in He |- *.
-        replace (o_app (set_status o 2)) with (o_app o) by reflexivity.
-        apply set_status_law; [exact He| |reflexivity]. unfold is_term. lia.
-    - destruct (o_status o =? 5); [injection H as <-; apply R_refl|discriminate]. }
-  eapply R_trans; [exact R1|].
-  set (s2 := set_pools s1 _) in *.
-  assert (R2 : R s1 s2) by (apply keepo_R; split; reflexivity).
-  eapply R_trans; [exact R2|].
-  assert (R3 : R s2 s3).
-  { destruct (b_matched env); [|injection E3 as <-; apply R_refl].
-    destruct (fold_m (apply_pool_flow true (p_app pr) pr) (b_pools env) _) as [a| |] eqn:Ea; try discriminate.
-    destruct (fold_m _ (b_fills env) a) as [b| |] eqn:Eb; try discriminate.
-    destruct (fold_m (apply_pool_flow false (p_app pr) pr) (b_pools env) b) as [c| |] eqn:Ec; try discriminate.
-    destruct (ssend c _ _ _ _) as [d| |] eqn:Ed; try discriminate. injection E3 as <-.
-    eapply R_trans; [apply keepo_R; eapply fold_m_keepo; [|exact Ea]; intros; eapply apply_pool_flow_keepo; eauto|].
-    eapply R_trans; [eapply fold_m_R; [|exact Eb]; intros ? ? ? HH; cbv beta in HH; eapply apply_fill_R; exact HH|].
-    eapply R_trans; [apply keepo_R; eapply fold_m_keepo; [|exact Ec]; intros; eapply apply_pool_flow_keepo; eauto|].
-    eapply R_trans; [apply keepo_R; eapply ssend_keepo; exact Ed|]. apply keepo_R; split; reflexivity. }
-  eapply R_trans; [exact R3|]. apply keepo_R; split; reflexivity.
-Qed.
-
-Lemma sweep_orders_R now app s s' : sweep_orders now app s = Ok s' -> R s s'.
-Proof.
-  unfold sweep_orders. apply fold_m_R. clear. intros s k s' H.
-  destruct (find_order k (orders s)) as [[o g]|] eqn:Ef; [|injection H as <-; apply R_refl].
-  destruct (find_order_in _ _ _ Ef) as [Hin Hk].
-  destruct (is_live (o_status o) && (o_expire o <=? now)); [eapply (finish_entry_R _ _ 6 _); [exact Hin|reflexivity|exact H]|].
-  destruct (too_small (o_open o) (o_price o)); [eapply (finish_entry_R _ _ 6 _); [exact Hin|reflexivity|exact H]|].
-  injection H as <-; apply R_refl.
-Qed.
-
-(* ---------------- custody operations do not touch the order store ---------------- *)
-Ltac sends :=
-  repeat match goal with E : ssend _ _ _ _ _ = Ok _ |- _ => apply ssend_keepo in E; destruct E as [? ?] end.
-Ltac keepo_tac H := inv_ok H; subst; sends; try (split; simpl in *; congruence).
-
-Lemma create_pair_keepo s a c b q s' : create_pair s a c b q = Ok s' -> keepo s s'.
-Proof. unfold create_pair, obind. intros H. keepo_tac H. Qed.
-Lemma new_pool_keepo s P a c pr rg ax ay ps s' : new_pool s P a c pr rg ax ay ps = Ok s' -> keepo s s'.
-Proof. unfold new_pool, obind, mint. intros H. keepo_tac H. Qed.
-Lemma create_pool_keepo s a c p x y ok ps s' : create_pool s a c p x y ok ps = Ok s' -> keepo s s'.
-Proof. unfold create_pool. intros H. inv_ok H; try (eapply new_pool_keepo; eassumption). Qed.
-Lemma create_ranged_keepo s a c p x y ok ax ay ps s' : create_ranged s a c p x y ok ax ay ps = Ok s' -> keepo s s'.
-Proof. unfold create_ranged. intros H. inv_ok H; try (eapply new_pool_keepo; eassumption). Qed.
-Lemma deposit_req_keepo s a o p x y s' r : deposit_req s a o p x y = Ok (s', r) -> keepo s s'.
-Proof. unfold deposit_req, obind. intros H. keepo_tac H. Qed.
-Lemma withdraw_req_keepo s a o p pc s' r : withdraw_req s a o p pc = Ok (s', r) -> keepo s s'.
-Proof. unfold withdraw_req, obind. intros H. keepo_tac H. Qed.
-Lemma fail_dep_keepo s pr r s' : fail_dep s pr r = Ok s' -> keepo s s'.
-Proof. unfold fail_dep, obind, put_dep. intros H. keepo_tac H. Qed.
-Lemma fail_wd_keepo s r s' : fail_wd s r = Ok s' -> keepo s s'.
-Proof. unfold fail_wd, obind, put_wd. intros H. keepo_tac H. Qed.
-Lemma exec_deposit_keepo s r ax ay pc s' : exec_deposit s r ax ay pc = Ok s' -> keepo s s'.
-Proof.
-  unfold exec_deposit, obind, put_dep, mint. intros H.
-  inv_ok H; subst; sends;
-    try (match goal with E : fail_dep _ _ _ = Ok _ |- _ => apply fail_dep_keepo in E; destruct E end);
-    split; simpl in *; congruence.
-Qed.
-Lemma exec_withdraw_keepo s r x y s' : exec_withdraw s r x y = Ok s' -> keepo s s'.
-Proof.
-  unfold exec_withdraw, obind, put_wd. intros H.
-  inv_ok H; subst; sends;
-    try (match goal with E : fail_wd _ _ = Ok _ |- _ => apply fail_wd_keepo in E; destruct E end);
-    split; simpl in *; congruence.
-Qed.
-Lemma farm_keepo s a o p amt now s' : farm s a o p amt now = Ok s' -> keepo s s'.
-Proof. unfold farm, obind. intros H. keepo_tac H. Qed.
-Lemma unfarm_keepo s a o p amt s' : unfarm s a o p amt = Ok s' -> keepo s s'.
-Proof. unfold unfarm, obind. intros H. keepo_tac H. Qed.
-Lemma deposit_and_farm_keepo s a o p x y now ax ay pc s' : deposit_and_farm s a o p x y now ax ay pc = Ok s' -> keepo s s'.
-Proof.
-  unfold deposit_and_farm, obind. intros H.
-  destruct (deposit_req s a o p x y) as [[s1 r]| |] eqn:E1; try discriminate.
-  destruct (exec_deposit s1 r ax ay pc) as [s2| |] eqn:E2; try discriminate.
-  destruct (find _ (deps s2)); [|discriminate]. destruct (_ || _); [discriminate|].
-  eapply keepo_trans; [eapply deposit_req_keepo; eauto|]. eapply keepo_trans; [eapply exec_deposit_keepo; eauto|].
-  eapply farm_keepo; eauto.
-Qed.
-Lemma unfarm_and_withdraw_keepo s a o p pc x y s' : unfarm_and_withdraw s a o p pc x y = Ok s' -> keepo s s'.
-Proof.
-  unfold unfarm_and_withdraw, obind. intros H. destruct (_ || _); [discriminate|].
-  destruct (unfarm s a o p pc) as [s1| |] eqn:E1; try discriminate.
-  destruct (withdraw_req s1 a o p pc) as [[s2 r]| |] eqn:E2; try discriminate.
-  eapply keepo_trans; [eapply unfarm_keepo; eauto|]. eapply keepo_trans; [eapply withdraw_req_keepo; eauto|].
-  eapply exec_withdraw_keepo; eauto.
-Qed.
-
-Lemma process_queued_keepo now app s : keepo s (process_queued now app s).
-Proof.
-  unfold process_queued. destruct (get_params s app); [|apply keepo_refl].
-  generalize (filter (fun q => q_app q =? app) (qfs s)). intros l. revert s.
-  induction l as [|q r IH]; intros s; cbn [fold_left]; [apply keepo_refl|].
-  eapply keepo_trans; [|apply IH]. unfold process_qf. destruct (filter _ (q_coins q)); [apply keepo_refl|split; reflexivity].
-Qed.
-
-(* ---------------- block hooks ---------------- *)
-Lemma end_app_R now s env s' : end_app now s env = Ok s' -> R s s'.
-Proof.
-  unfold end_app, obind. intros H.
-  destruct (fold_m _ (filter _ (pairs s)) s) as [s1| |] eqn:E1; try discriminate.
-  destruct (sweep_orders now (e_app env) s1) as [s2| |] eqn:E2; try discriminate.
-  destruct (fold_m _ (filter _ (deps s2)) s2) as [s3| |] eqn:E3; try discriminate.
-  destruct (fold_m _ (filter _ (wds s3)) s3) as [s4| |] eqn:E4; try discriminate.
-  injection H as <-.
-  eapply R_trans; [eapply fold_m_R; [|exact E1]; intros ? ? ? HH; cbv beta in HH; eapply execute_matching_R; exact HH|].
-  eapply R_trans; [eapply sweep_orders_R; exact E2|].
-  eapply R_trans; [apply keepo_R; eapply fold_m_keepo; [|exact E3]; intros s0 r s0' HH; cbv beta in HH;
-                   destruct (d_status r =? 1); [|injection HH as <-; apply keepo_refl];
-                   destruct (find_dep_env _ _ _) as [[? ?] ?]; eapply exec_deposit_keepo; exact HH|].
-  eapply R_trans; [apply keepo_R; eapply fold_m_keepo; [|exact E4]; intros s0 r s0' HH; cbv beta in HH;
-                   destruct (w_status r =? 1); [|injection HH as <-; apply keepo_refl];
-                   destruct (find_wd_env _ _ _) as [? ?]; eapply exec_withdraw_keepo; exact HH|].
-  apply keepo_R, process_queued_keepo.
-Qed.
-
-Lemma atomic_R s r : (forall s', r = Ok s' -> R s s') -> R s (atomic s r).
-Proof. intros H. destruct r; cbn; [apply H; reflexivity|apply R_refl|apply R_refl]. Qed.
-
-Lemma fold_left_R {A} (f : state -> A -> state) l : (forall s x, R s (f s x)) -> forall s, R s (fold_left f l s).
-Proof. intros Hf. induction l as [|x r IH]; intros s; cbn; [apply R_refl|]. eapply R_trans; [apply Hf|apply IH]. Qed.
-
-Lemma end_block_R h now envs s : R s (end_block h now envs s).
-Proof.
-  unfold end_block. apply fold_left_R. intros s0 [app P].
-  destruct (pr_batch P =? 0); [apply R_refl|]. destruct (h mod pr_batch P =? 0); [|apply R_refl].
-  apply atomic_R. intros s' H. eapply end_app_R; eauto.
-Qed.
-
-Lemma begin_block_R s : R s (begin_block s).
-Proof.
-  unfold begin_block. apply fold_left_R. intros s0 [app P]. cbn [fst]. unfold begin_app.
-  split; [reflexivity|]. unfold SInv, SInvL. cbn [apps orders set_orders set_wds set_deps]. intros HS.
+  intros [HA HS]. unfold begin_app. proj_cbn. split; [exact HA|].
   apply Forall_forall. intros e He. apply filter_In in He. destruct He as [He _].
   eapply Forall_forall in HS; eauto.
 Qed.
 
-(* registering a NEW app leaves every existing app's parameters alone *)
-Lemma aget_aset_other {A} (l : list (Z * A)) k v k' : k <> k' -> aget (aset l k v) k' = aget l k'.
+(* everything else leaves [apps] and [orders] alone *)
+Ltac si_frame H s' := inv_ok H; try subst s'; sends; proj_cbn; assumption.
+
+Lemma si_esc_in s a p f d x s' : SI ap s -> is_outside f = true -> esc_in s a p f d x = Ok s' -> SI ap s'.
+Proof. unfold SI, esc_in, obind. intros HI _ H. si_frame H s'. Qed.
+Lemma si_esc_out s a p t d x s' : SI ap s -> is_outside t = true -> esc_out s a p t d x = Ok s' -> SI ap s'.
+Proof. unfold SI, esc_out, obind. intros HI _ H. si_frame H s'. Qed.
+Lemma si_create_pair s a c b q s' : SI ap s -> create_pair s a c b q = Ok s' -> SI ap s'.
+Proof. unfold SI, create_pair, obind. intros HI H. si_frame H s'. Qed.
+Lemma si_new_pool s P a c pr rg ax ay ps s' : SI ap s -> new_pool s P a c pr rg ax ay ps = Ok s' -> SI ap s'.
+Proof. unfold SI, new_pool, obind. intros HI H. si_frame H s'. Qed.
+Lemma si_deposit_req s a o p x y s' r : SI ap s -> deposit_req s a o p x y = Ok (s', r) -> SI ap s'.
+Proof. unfold SI, deposit_req, obind. intros HI H. si_frame H s'. Qed.
+Lemma si_withdraw_req s a o p pc s' r : SI ap s -> withdraw_req s a o p pc = Ok (s', r) -> SI ap s'.
+Proof. unfold SI, withdraw_req, obind. intros HI H. si_frame H s'. Qed.
+Lemma si_fail_dep s r s' : SI ap s -> fail_dep s r = Ok s' -> SI ap s'.
+Proof. unfold SI, fail_dep, obind. intros HI H. si_frame H s'. Qed.
+Lemma si_fail_wd s r s' : SI ap s -> fail_wd s r = Ok s' -> SI ap s'.
+Proof. unfold SI, fail_wd, obind. intros HI H. si_frame H s'. Qed.
+Lemma si_do_deposit s r pr ax ay pc s' : SI ap s -> do_deposit s r pr ax ay pc = Ok s' -> SI ap s'.
+Proof. unfold SI, do_deposit, obind. intros HI H. si_frame H s'. Qed.
+Lemma si_do_withdraw s r pl pr x y s' : SI ap s -> do_withdraw s r pl pr x y = Ok s' -> SI ap s'.
+Proof. unfold SI, do_withdraw, obind. intros HI H. si_frame H s'. Qed.
+Lemma si_farm s a o p amt now s' : SI ap s -> farm s a o p amt now = Ok s' -> SI ap s'.
+Proof. unfold SI, farm, obind. intros HI H. si_frame H s'. Qed.
+Lemma si_unfarm s a o p amt s' : SI ap s -> unfarm s a o p amt = Ok s' -> SI ap s'.
+Proof. unfold SI, unfarm, obind. intros HI H. si_frame H s'. Qed.
+Lemma si_process_queued s now app : SI ap s -> SI ap (process_queued now app s).
 Proof.
-  intros Hk. induction l as [|[a w] r IH]; cbn.
-  - destruct (k =? k') eqn:E; [lia|reflexivity].
-  - destruct (a =? k) eqn:E1.
-    + cbn. destruct (k =? k') eqn:E2; [lia|]. destruct (a =? k') eqn:E3; [lia|reflexivity].
-    + destruct (k <? a) eqn:E2; cbn.
-      * destruct (k =? k') eqn:E3; [lia|]. reflexivity.
-      * destruct (a =? k'); [reflexivity|exact IH].
+  unfold process_queued. intros HI. destruct (get_params s app); [|exact HI].
+  revert HI. apply fold_left_inv. intros s0 q HI. unfold process_qf.
+  destruct (filter _ (q_coins q)); [exact HI|]. exact HI.
 Qed.
 
-(* ---------------- every operation; histories ---------------- *)
-Definition is_addapp (o : op) : bool := match o with OAddApp _ _ => true | _ => false end.
-Definition is_setup (o : op) : bool := match o with OAddApp _ _ | OAddAsset _ | OFund _ _ _ => true | _ => false end.
-
-Lemma step_R s o s' : is_addapp o = false -> step s o = Ok s' -> R s s'.
+Theorem si_run ops s : Forall (fun o => is_addapp o = false) ops -> SI ap s -> SI ap (fold_left apply_op ops s).
 Proof.
-  destruct o; cbn [is_addapp step]; intros Hn H; try discriminate.
-  - injection H as <-. apply keepo_R; split; reflexivity.
-  - injection H as <-. apply keepo_R; split; reflexivity.
-  - apply keepo_R. eapply create_pair_keepo; eauto.
-  - apply keepo_R. eapply create_pool_keepo; eauto.
-  - apply keepo_R. eapply create_ranged_keepo; eauto.
-  - eapply limit_order_R; eauto.
-  - eapply market_order_R; eauto.
-  - eapply mm_order_R; eauto.
-  - eapply cancel_order_R; eauto.
-  - eapply cancel_all_R; eauto.
-  - eapply cancel_mm_R; eauto.
-  - unfold obind in H. destruct (deposit_req s app owner pid x y) as [[s1 r]| |] eqn:E; try discriminate.
-    injection H as <-. apply keepo_R. eapply deposit_req_keepo; eauto.
-  - unfold obind in H. destruct (withdraw_req s app owner pid pc) as [[s1 r]| |] eqn:E; try discriminate.
-    injection H as <-. apply keepo_R. eapply withdraw_req_keepo; eauto.
-  - apply keepo_R. eapply farm_keepo; eauto.
-  - apply keepo_R. eapply unfarm_keepo; eauto.
-  - apply keepo_R. eapply deposit_and_farm_keepo; eauto.
-  - apply keepo_R. eapply unfarm_and_withdraw_keepo; eauto.
-  - injection H as <-. apply begin_block_R.
-  - injection H as <-. apply end_block_R.
+  intros Ho. apply (sw_run (SI ap)); try assumption.
+  - exact si_finish.
+  - exact si_place.
+  - intros; assumption.
+  - intros; eapply si_mm_tail; eauto.
+  - exact si_fill_book.
+  - intros s0 k o g st HI Hf Hl [-> | ->]; apply si_mark_status; auto.
+  - exact si_esc_in.
+  - exact si_esc_out.
+  - intros; assumption.
+  - intros; assumption.
+  - exact si_begin_app.
+  - exact si_create_pair.
+  - intros; eapply si_new_pool; eauto.
+  - exact si_deposit_req.
+  - exact si_withdraw_req.
+  - intros; eapply si_fail_dep; eauto.
+  - intros; eapply si_fail_wd; eauto.
+  - intros; assumption.
+  - intros; eapply si_do_deposit; eauto.
+  - intros; eapply si_do_withdraw; eauto.
+  - exact si_farm.
+  - exact si_unfarm.
+  - exact si_process_queued.
+  - intros; assumption.
+  - intros; assumption.
 Qed.
+End Leaves.
 
-Lemma apply_op_R s o : is_addapp o = false -> R s (apply_op s o).
-Proof. intros Hn. unfold apply_op. apply atomic_R. intros s' H. eapply step_R; eauto. Qed.
-
+(* ---------------- the setup prefix leaves the stores empty ---------------- *)
 Lemma setup_no_orders s o : is_setup o = true -> orders s = [] -> orders (apply_op s o) = [].
 Proof.
   destruct o; cbn [is_setup]; try discriminate; intros _ H; unfold apply_op; cbn [step].
@@ -499,7 +236,7 @@ Proof.
   { assert (G : forall s, orders s = [] -> orders (fold_left apply_op setup s) = []).
     { induction Hs as [|o r Ho' _ IH]; intros s Hs0; cbn [fold_left]; [assumption|]. apply IH. apply setup_no_orders; assumption. }
     apply G. reflexivity. }
-  assert (S0 : SInv (fold_left apply_op setup init)). { unfold SInv, SInvL. rewrite H0. constructor. }
-  revert S0. generalize (fold_left apply_op setup init). induction Ho as [|o r Hn _ IH]; intros s HS; cbn [fold_left]; [assumption|].
-  apply IH. apply (apply_op_R s o Hn). assumption.
+  set (s0 := fold_left apply_op setup init) in *.
+  assert (S0 : SI (apps s0) s0). { split; [reflexivity|]. unfold SInvL. rewrite H0. constructor. }
+  destruct (si_run (apps s0) ops s0 Ho S0) as [HA HS]. unfold SInv. rewrite HA. exact HS.
 Qed.
